@@ -132,4 +132,24 @@ func genC22(g *gen) {
 
 	// the address bytes that become ExpectedClientAddr.IP are allocated by readRequest for this request alone
 	g.line("Definition gen_request_address_bytes_are_not_shared : bool := %s.", coqBool(freshBuffers(findFunc(hf, "Handler", "readRequest"), false)))
+
+	// the datagram bytes live in ReadLoop's single receive buffer, which the next datagram (from anybody)
+	// overwrites: nothing may keep using them after RelayUDPDatagram has returned. ReadLoop calls the mesh
+	// side synchronously, and Agent.RelayUDPDatagram starts no goroutine and builds no closure.
+	noAsync := func(fd *ast.FuncDecl) bool {
+		if fd == nil || fd.Body == nil {
+			return false
+		}
+		ok := true
+		ast.Inspect(fd.Body, func(n ast.Node) bool {
+			switch n.(type) {
+			case *ast.GoStmt, *ast.FuncLit:
+				ok = false
+			}
+			return true
+		})
+		return ok
+	}
+	g.line("Definition gen_read_loop_relays_synchronously : bool := %s.", coqBool(noAsync(findFunc(uf, "UDPAssociation", "ReadLoop"))))
+	g.line("Definition gen_agent_relay_keeps_no_reference_to_the_datagram : bool := %s.", coqBool(noAsync(findFuncInDir("internal/agent", "Agent", "RelayUDPDatagram"))))
 }
